@@ -387,8 +387,9 @@ def work_indent(item, only=None):
 
 # --------------------------------------------------------------------------------------------------- keyword / identifier box
 
-KW_G = 'start: IF NAME | NAME EQ NAME | IF NAME EQ NAME THEN NAME\nIF: "if"\nTHEN: "fi"\nEQ: "="\nNAME: /[a-z]+/\nWS: " "\n%ignore WS\n'
-KW_ALPHA = 'if a=9'
+# EQ may swallow a following line break: an input that ends there is a proper prefix whose last token spans two lines
+KW_G = 'start: IF NAME | NAME EQ NAME | IF NAME EQ NAME THEN NAME\nIF: "if"\nTHEN: "fi"\nEQ: /=\\n?/\nNAME: /[a-z]+/\nWS: " "\n%ignore WS\n'
+KW_ALPHA = 'if a=9\n'
 KW_ENGINES = (('lalr', 'contextual'), ('lalr', 'basic'), ('earley', 'basic'))
 KW_TNAMES = ('IF', 'THEN', 'EQ', 'NAME')
 
@@ -407,8 +408,12 @@ class _Kw:
                                               ((T('IF'), T('NAME'), T('EQ'), T('NAME'), T('THEN'), T('NAME')), None)))]
             cls.g = Grammar(rules, [Term(n, (('str', n, ''),)) for n in KW_TNAMES])
             cls.ref = reflalr.RefLALR(cls.g)
-            cls.tdefs = [TDef('IF', 'str', 'if'), TDef('THEN', 'str', 'fi'), TDef('EQ', 'str', '='), TDef('NAME', 're', '[a-z]+', '', 0, INF), TDef('WS', 'str', ' ')]
+            cls.tdefs = [TDef('IF', 'str', 'if'), TDef('THEN', 'str', 'fi'), TDef('EQ', 're', '=\\n?', '', 0, 2), TDef('NAME', 're', '[a-z]+', '', 0, INF), TDef('WS', 'str', ' ')]
             cls.parsers = {(pa, lx): Lark(KW_G, parser=pa, lexer=lx) for pa, lx in KW_ENGINES}
+
+
+class _Prefix(list):
+    last_pos = None
 
 
 def kw_expect(w, lexer):
@@ -425,11 +430,12 @@ def kw_expect(w, lexer):
         return {k[1] for k in s.terminals() if k != reflalr.END and k[0] == 'tok'}
     lx = reflex.lex_basic(tdefs, ('WS',), w, allowed=allowed if lexer == 'contextual' else None)
     toks = lx[1] if lx[0] == 'ok' else lx[2]
-    prefix = []
+    prefix = _Prefix()
     for typ, val, pos in toks:
         if not refsem.viable_tokens(g, [('tok', t) for t in prefix] + [('tok', typ)]):
             return ('UnexpectedToken', typ, pos), prefix
         prefix.append(typ)
+        prefix.last_pos = pos
     if lx[0] != 'ok':
         q = lx[1]
         if lexer == 'contextual':
@@ -486,6 +492,12 @@ def work_kw(item, only=None):
                 if not (cls == 'UnexpectedEOF' or (cls == 'UnexpectedToken' and tok.type == '$END')):
                     bad('position', 'position', 'UnexpectedEOF / unexpected $END', obs.exc(e))
                     continue
+                if cls == 'UnexpectedToken' and prefix.last_pos is not None:
+                    # "an unexpected $END carrying the coordinates of the last token"
+                    wantc = reflex.linecol(w, prefix.last_pos) + (prefix.last_pos,)
+                    if (tok.line, tok.column, tok.start_pos) != wantc:
+                        bad('end-coordinates', 'end-coordinates', {'line,column,start_pos of the last token': list(wantc)}, [tok.line, tok.column, tok.start_pos])
+                        continue
             elif want[0] == 'UnexpectedToken':
                 if (cls, getattr(tok, 'type', None), getattr(tok, 'start_pos', None)) != want:
                     bad('position', 'position', list(want), [cls, getattr(tok, 'type', None), getattr(tok, 'start_pos', None), getattr(e, 'pos_in_stream', None)])
@@ -500,6 +512,16 @@ def work_kw(item, only=None):
                 got = names(getattr(e, 'allowed', None) if cls == 'UnexpectedCharacters' else getattr(e, 'expected', None))
                 if cls != 'UnexpectedEOF' and not nxt <= got:
                     bad('continuation-set', 'expected-earley-basic', 'superset of %s' % sorted(nxt), sorted(got))
+            elif cls == 'UnexpectedCharacters' and lexer == 'contextual':
+                # the contextual lexer works with the terminals the parser's state can take: `allowed` names those (the row
+                # of the reference automaton -- lark's table equals it, C02), in particular every legal next terminal
+                sim = _Kw.ref.sim()
+                for t in prefix:
+                    sim.feed(('tok', t))
+                row = {k[1] for k in sim.terminals() if k != reflalr.END and k[0] == 'tok'}
+                got = names(e.allowed)
+                if not (nxt <= got <= row):
+                    bad('continuation-set', 'allowed-contextual', 'legal next %s <= allowed <= terminals of the state %s' % (sorted(nxt), sorted(row)), sorted(got))
             elif cls == 'UnexpectedToken':
                 acc = util.timed(lambda: e.accepts, 5)
                 if acc[0] != 'ok' or acc[1] is None:
